@@ -17,7 +17,7 @@ const (
 	c14S1 = "SELECT name FROM items WHERE id = 1"
 )
 
-var c14OpNames = []string{"exec-q1", "exec-q2", "tx-exec-q1", "tx-row-s1", "row-s1", "query-s1", "reset", "session-exec-q1", "tx-exec-q2-rollback"}
+var c14OpNames = []string{"exec-q1", "exec-q2", "tx-exec-q1", "tx-row-s1", "row-s1", "query-s1", "reset", "session-exec-q1", "tx-exec-q2-rollback", "tx-session-exec-rollback", "begin-exec-q1-rollback"}
 
 // c14Op runs one operation and reports (error, rows/affected ok)
 func c14Op(db *gorm.DB, op string) error {
@@ -41,6 +41,26 @@ func c14Op(db *gorm.DB, op string) error {
 			return nil
 		}
 		return err
+	case "tx-session-exec-rollback":
+		// a handle derived with Session{PrepareStmt} inside a transaction stays inside it
+		err := db.Transaction(func(tx *gorm.DB) error {
+			if e := tx.Session(&gorm.Session{PrepareStmt: true}).Exec(c14Q1).Error; e != nil {
+				return e
+			}
+			return errBlock
+		})
+		if errors.Is(err, errBlock) {
+			return nil
+		}
+		return err
+	case "begin-exec-q1-rollback":
+		tx := db.Begin()
+		if tx.Error != nil {
+			return tx.Error
+		}
+		e := tx.Exec(c14Q1).Error
+		tx.Rollback()
+		return e
 	case "tx-row-s1":
 		return db.Transaction(func(tx *gorm.DB) error {
 			var name string
@@ -141,6 +161,10 @@ func H_C14_Seq(shape int) {
 	verifrt.Reach("ops-done")
 	verifrt.Observe("log", s.Kinds())
 	verifrt.Assert(s.OpenTx() == 0, "C14.tx-open")
+	// the same rows as in non-prepared mode: without a fault both stores hold the same number of durable writes
+	if s.FaultAt == 0 && s.PrepareFaultAt == 0 {
+		verifrt.Assert(len(s.Durable) == len(ref.Durable), "C14.different-rows")
+	}
 	// closing the cache closes every statement it prepared
 	if p, ok := db.ConnPool.(*gorm.PreparedStmtDB); ok {
 		p.Close()
